@@ -112,6 +112,8 @@ class Pol:
         if isinstance(e, ast.NamedExpr):
             return T(e.value, stmt, scope, seen)
         self.unknown.append(src(e))
+        if isinstance(e, ast.Compare):
+            return [(1, frozenset({"ind"}))]  # a comparison used as a number is a 0/1 indicator: non-negative
         return [(0, frozenset({"?" + type(e).__name__}))]
 
     def _prod(self, l, r):
@@ -179,10 +181,10 @@ class Pol:
                     out += prev + inc
                 elif isinstance(op, ast.Sub):
                     out += prev + [(-s, a) for s, a in inc]
-                elif isinstance(op, (ast.Mult, ast.MatMult, ast.Div)):
-                    out += self._prod(prev, inc) if inc else prev
                 else:
-                    out += [(0, a) for s, a in prev + inc]
+                    # x op= v is x = x op v: the same expansion as for the spelled-out expression (placement, powers)
+                    fake = ast.copy_location(ast.BinOp(left=ast.copy_location(ast.Name(id=name, ctx=ast.Load()), d.stmt), op=op, right=d.value), d.stmt)
+                    out += self.terms(fake, d.stmt, None, seen2)
             elif d.how == "iter":
                 out += self._elem_terms(d.value, d.stmt, None, seen2, d.index)
             elif d.how == "unpack":
